@@ -48,7 +48,7 @@ def negative_types(ctx, lab, types):
     rng = ctx.rng
     for t in types:
         e = gen.endp(rng, lab.cfg, rng.random() < 0.5)
-        f = Flow(ctx, e, gen.rnd_port(rng), gen.rnd_port(rng))
+        f = Flow.fresh(ctx, e)
         if f.syn() is None:
             continue
         first, tid, _ = stun.gen_request(rng, "magic_long")
